@@ -252,6 +252,16 @@ impl Engine for SignSim {
                         v.push(c);
                     }
                 }
+                Op::IssueViaImport { issuer, subject, recipe } => {
+                    for rc in recipe.shrink() {
+                        let mut c = t.clone();
+                        c.ops[i] = Op::IssueViaImport { issuer: *issuer, subject: *subject, recipe: rc };
+                        v.push(c);
+                    }
+                    let mut c = t.clone();
+                    c.ops[i] = Op::Issue { issuer: *issuer, subject: *subject, via: crate::world::SubjectVia::KeyPair, recipe: recipe.clone(), store: false };
+                    v.push(c);
+                }
             }
         }
         // simplify keys: Ed25519 is the cheapest and has no randomness
